@@ -150,5 +150,10 @@ func runC08() {
 		p.HasTx, p.HasPrev, p.TxVersion, p.InSeq = true, true, 1, 0xffffffff
 		emit(p.Fix())
 	}
-	c.Stats.Rule = "provenance x transformation matrix: 17 ways of obtaining two stack items backed by the same data (DUP, 2DUP, 3DUP, OVER, 2OVER, PICK, TUCK, IFDUP, both halves of SPLIT, alt-stack round trips, pushes straight from the script bytes, ROT/SWAP/ROLL of duplicates) x 42 value-transforming opcode snippets x 14 twin values x both eras, in the locking script and in the unlocking script; random chains of 2-3 transformations; P2SH (saved stack shared with the redeem script); runs with a transaction context. Every snapshot of every stack item after every step is compared with the model (in which values cannot alias), the frame property is stated directly on the snapshots, and the caller-held script and transaction buffers are compared byte for byte before/after. distinct = distinct program; non-trivial = at least one step completed"
+	nShapes := 800
+	if c.Thorough() {
+		nShapes = 20000
+	}
+	sigShapes(r, buffersOnly, nShapes)
+	c.Stats.Rule = "800 signature-opcode shapes with a transaction context (implementation only: caller buffers, tx serialisation and the prevout record compared); provenance x transformation matrix: 17 ways of obtaining two stack items backed by the same data (DUP, 2DUP, 3DUP, OVER, 2OVER, PICK, TUCK, IFDUP, both halves of SPLIT, alt-stack round trips, pushes straight from the script bytes, ROT/SWAP/ROLL of duplicates) x 42 value-transforming opcode snippets x 14 twin values x both eras, in the locking script and in the unlocking script; random chains of 2-3 transformations; P2SH (saved stack shared with the redeem script); runs with a transaction context. Every snapshot of every stack item after every step is compared with the model (in which values cannot alias), the frame property is stated directly on the snapshots, and the caller-held script and transaction buffers are compared byte for byte before/after. distinct = distinct program; non-trivial = at least one step completed"
 }
